@@ -9,7 +9,8 @@ COQ_CASE_TYPE = "M_Ucs.case"
 COQ_CHECK = "M_Ucs.check_case"
 OBLIGATIONS = ["max_footprint_spec", "accept_safe", "accept_safe_level", "capacity_safe",
                "placement_inv_partial", "done_report_inv", "replica_hosts_inv", "ucs_token_conserved_partial", "ucs_token_unique",
-               "ucs_token_invariant", "ucs_replicated_once", "ucs_no_raise", "ucs_progress", "ucs_quiescent_all_done"]
+               "ucs_token_invariant", "ucs_replicated_once", "ucs_no_raise", "ucs_progress", "ucs_quiescent_all_done",
+               "ucs_holders_inv", "placement_inv"]
 N_QUICK, N_THOROUGH = 300, 4000
 PARALLEL = 8
 SHARD = 60
@@ -31,8 +32,10 @@ MODELLED = ("UCSReplication.replicate/on_replicate_request/on_replicate_answer/_
             "cheapest_path_to, affordable_path_from incl. the mutation-while-iterating skip), the asserts of "
             "UCSReplicateMessage, AgentDef.route/hosting_cost are modelled and compared event by event, state "
             "by state and token by token. Agent arrival/removal events are not modelled. Theorems: acceptance "
-            "test / capacity safety / reported placement / token uniqueness and conservation; termination and "
-            "'reported hosts = all holders' rest on the oracle of this run.")
+            "test / capacity safety / reported placement / token uniqueness and conservation; under symmetric "
+            "non-negative costs and unique computation names: no handler raises, an agent that has not reported "
+            "done still has a message in flight, quiescent => every agent done. The bound on the number of "
+            "deliveries and 'reported hosts = all holders' rest on the oracle of this run.")
 META = dict(
     level_text=("Proof (Coq), for every well-formed deployment (any number of agents/computations, any costs, "
                 "k >= 1) and EVERY schedule of starts and per-channel-FIFO deliveries of the UCS replication "
@@ -42,9 +45,16 @@ META = dict(
                 "the replicas of any k_target-1 owners; the hosts a replication reports are distinct, at most k, "
                 "never an owner of the computation, and each holds/has registered the replica; at most one "
                 "request/answer token per computation is ever in flight and a handler never silently drops or "
-                "duplicates it. NOT proved (checked by the independent oracle on every generated run): "
-                "termination (no handler raises, finite budget sequence, so every agent reports done) and that "
-                "no agent outside the reported set holds a replica. "
+                "duplicates it. Under the guards 'route costs between agents symmetric, route and hosting costs >= 0, "
+                "computation names unique' (forced by the proofs; a negative route cost is the recorded finding "
+                "C25-negative-route-assert): no handler of any run raises (pure token invariant: table costs = path "
+                "costs, spent = cost of the request path, budget >= 0, no table entry is a prefix of the token's "
+                "position; plus tracker invariant: tokens + pending orders + 'already replicated' <= 1 per "
+                "computation), an agent that has not reported done has its order or a token of one of its "
+                "computations in flight (or a node is not started), hence every quiescent run ends with every agent "
+                "done. NOT proved (checked by the independent oracle on every generated run): that quiescence is "
+                "reached (the budget sequence is strictly increasing over the finite set of path costs) and that no "
+                "agent outside the reported set holds a replica. "
                 "The model is tied to dist_ucs_hostingcosts.py/path_utils.py/agents.py by replaying the same "
                 "schedules on the real ResilientAgent/UCSReplication/Discovery objects and comparing every "
                 "event, final state and in-flight token."),
